@@ -1090,3 +1090,82 @@ def quantifier(ctx, key, paths=None):
         return dict(kind=kind, coll=_iter_source(call_args(nx)[0]), pred=pred, neg=neg, form="loop", before=before)
     return None
 
+
+# ---------------------------------------------------------------- accumulations: `for x in c { out.push(f(x)?) }`  ==  `c.into_iter().map(f).collect::<Result<Vec<_>>>()?`
+
+def accumulation(ctx, key, result, paths=None):
+    """Normal form of `a collection built from another, one item per element, in order`, or None:
+         dict(src=<source collection term>, item=<term of the item produced for ELEM / the loop element>, fallible=<bool>, form='loop'|'collect', locals=<set of locals of src>)
+       `result` is the term of the built collection (e.g. the `entries` field of the returned value)."""
+    paths = paths if paths is not None else ctx.paths(key)
+    body = ctx.body(key)
+    if not paths or body is None or result is None:
+        return None
+    t = strip_refs(result)
+    fallible = False
+    # collect form: (collect(map(into_iter(SRC), closure)) [as Ok / ? payload])
+    for _ in range(4):
+        if isinstance(t, tuple) and t and t[0] == "field" and t[2] == 0 and isinstance(t[1], tuple) and t[1][0] == "downcast" and t[1][2] in ("Ok", "Continue"):
+            fallible = True
+            t = strip_refs(t[1][1])
+        elif is_call(t, "Try>::branch"):
+            t = strip_refs(call_args(t)[0])
+        else:
+            break
+    if is_call(t, "::collect") and call_args(t):
+        it = strip_refs(call_args(t)[0])
+        if is_call(it, "::map") and len(call_args(it)) == 2:
+            clo = strip_refs(call_args(it)[1])
+            pe = mir.PathEval(ctx.fx, body, inline=ctx.inline_set, desugar=True)
+            alts = [(fs, v) for (_, fs, v) in pe._apply(clo, (ELEM,), 0) if v is not None]
+            if len(alts) == 1 and not alts[0][0]:
+                raw = call_args(it)[0]
+                src = _iter_source(raw)
+                if is_call(src) and ("iter::" in src[1] or "Iterator" in src[1]):
+                    return None     # an adaptor (rev, skip, filter, take ..) sits between the collection and the map: not one item per element in order
+                return dict(src=src, item=alts[0][1], fallible=fallible, form="collect",
+                            locals={x[1] for x in subterms(raw) if x[0] in ("havoc", "mutated", "loc") and len(x) > 1 and isinstance(x[1], int)} if isinstance(raw, tuple) else set())
+        return None
+    # loop form: result is a local (or a field of one) that a loop pushes to once per iteration
+    base = t
+    fld = None
+    if isinstance(base, tuple) and base and base[0] == "field":
+        fld = base[3]
+        base = strip_refs(base[1])
+    if not (isinstance(base, tuple) and base and base[0] in ("havoc", "mutated")):
+        return None
+    loc_ = base[1]
+
+    def is_target(a):
+        a0 = a[1] if isinstance(a, tuple) and a and a[0] == "refmut" else None
+        if a0 is None:
+            return False
+        if fld is not None:
+            return isinstance(a0, tuple) and a0[0] == "field" and a0[3] == fld and mentions(a0, lambda u: u[0] in ("havoc", "mutated", "loc") and u[1] == loc_)
+        return isinstance(a0, tuple) and a0[0] == "loc" and a0[1] == loc_
+    for h in sorted(body.loops):
+        backs = [p for p in paths if p.end[0] == "back" and p.end[1] == h]
+        pushes = [[e for e in p.events if ev_is(e, "Vec::push") and e.bb in body.loops[h] and is_target(e.args[0])] for p in backs]
+        if not backs or not all(len(x) == 1 for x in pushes):
+            continue
+        def skeleton(t):
+            if isinstance(t, tuple) and t and t[0] in ("havoc", "mutated", "loc") and len(t) > 1 and isinstance(t[1], int):
+                return ("L", t[1])
+            if isinstance(t, tuple):
+                return tuple(skeleton(x) for x in t)
+            return t
+        items = {skeleton(x[0].args[1]) for x in pushes}
+        if len(items) != 1:
+            continue
+        item = pushes[0][0].args[1]
+        drv = [c for p in backs for c in p.conds() if c.term[0] == "discr" and is_call(strip_refs(c.term[1]), "::next") and strip_refs(c.term[1])[4] == h]
+        if not drv:
+            continue
+        srcarg = call_args(strip_refs(drv[0].term[1]))[0]
+        src = _iter_source(srcarg)
+        if is_call(src) and ("iter::" in src[1] or "Iterator" in src[1]):
+            continue
+        return dict(src=src, item=item, fallible=has_try(item), form="loop",
+                    locals={x[1] for x in subterms(srcarg) if x[0] in ("havoc", "mutated", "loc") and isinstance(x[1], int)})
+    return None
+
